@@ -59,6 +59,24 @@ type nestEmpty struct {
 	LM []map[string]zoo.Five
 }
 
+type OnlyViaEmbed struct {
+	Deep zoo.Five
+	List []zoo.Item
+}
+type embPtr struct {
+	*OnlyViaEmbed
+	X int32
+}
+
+type customList []*zoo.Small
+
+func (customList) HessianCodecName() string { return "com.example.SmallList" }
+
+type holdCustomList struct {
+	Items customList
+	N     int32
+}
+
 type holdIface struct {
 	L []interface{}
 	M map[string]interface{}
@@ -67,13 +85,20 @@ type holdIface struct {
 var extractTypes = []interface{}{
 	zoo.Scalars{}, zoo.Small{}, zoo.Slices{}, zoo.Conts{}, zoo.Derived{}, zoo.CustomHolder{}, zoo.Custom{}, zoo.NamedMapHolder{},
 	zoo.Node{}, zoo.FNode{}, zoo.Ping{}, zoo.Pong{}, zoo.Wide{}, zoo.Five{}, selfSlice{}, mutA{}, mutB{}, deepPtr{}, holdIface{},
-	recCustom{}, recCustomPair{}, nestEmpty{},
+	recCustom{}, recCustomPair{}, nestEmpty{}, embPtr{}, customList{}, holdCustomList{},
 	[]zoo.Small{}, []*zoo.Node{}, [][]zoo.Item{}, map[string]*zoo.Ping{}, map[string][]zoo.Custom{}, zoo.Nodes{},
 }
 
 // witnesses of a type: from the zero value to fully populated.
 func witnesses(t reflect.Type, g *gen.G, n int) []interface{} {
 	ws := []interface{}{reflect.Zero(t).Interface(), reflect.New(t).Interface()}
+	if t == reflect.TypeOf(holdIface{}) {
+		// what interfaces hold is only known from the witness itself
+		ws = append(ws,
+			holdIface{L: []interface{}{zoo.Small{Name: "s"}, &zoo.Item{K: "k"}, []interface{}{zoo.Custom{Key: "c"}}, []interface{}{&zoo.Five{A: 1}}},
+				M: map[string]interface{}{"k": zoo.HI64{V: 1}, "l": []interface{}{zoo.HStr{V: "x"}}}},
+			&holdIface{L: []interface{}{[]zoo.W00{{V: 1}}, map[string]interface{}{"deep": &zoo.W01{V: 2}}}})
+	}
 	for i := 0; i < n; i++ {
 		g.Reset()
 		g.MaxDepth = 1 + i%5
@@ -126,7 +151,7 @@ func nameDesc(m map[string]string) [][]interface{} {
 
 // customName returns the HessianCodecName of t (or "").
 func customName(t reflect.Type) string {
-	if t.Kind() != reflect.Struct && t.Kind() != reflect.Map {
+	if t.Kind() != reflect.Struct && t.Kind() != reflect.Map && t.Kind() != reflect.Slice {
 		return ""
 	}
 	if n, ok := reflect.Zero(t).Interface().(hessian.CodecNamable); ok {
@@ -202,6 +227,29 @@ func extractOne(rq extractReq) proj.M {
 		names = append(names, proj.Octets([]byte(n)))
 		customs = append(customs, proj.Octets([]byte(customName(ty))))
 	}
+	// the dynamic types of every container / object the witness actually holds (behind interfaces too)
+	dyn := map[int]bool{}
+	for _, n := range P.Project(w).Nodes {
+		if id, ok := n["t"].(int); ok {
+			dyn[id] = true
+		}
+	}
+	dl := []int{}
+	for id := range dyn {
+		dl = append(dl, id)
+	}
+	sort.Ints(dl)
+	ev["dyn"] = dl
+	names, customs = names[:0], customs[:0]
+	for i := 0; i < len(P.Types); i++ {
+		ty := P.TypeByID(i + 1)
+		n := ty.Name()
+		if n == "" {
+			n = ty.String()
+		}
+		names = append(names, proj.Octets([]byte(n)))
+		customs = append(customs, proj.Octets([]byte(customName(ty))))
+	}
 	ev["T"], ev["names"], ev["customs"] = P.Types, names, customs
 	return ev
 }
@@ -248,7 +296,7 @@ func runExtract(seed int64, tier, out string, shards, only int) {
 				cmd.Wait()
 				cmd, in, rd = start()
 				ev = proj.M{"ev": "extract", "crash": 1, "type": t.String(), "label": fmt.Sprintf("%s/w%d", t, wi),
-					"panic": 0, "hang": 0, "ofpanic": 0, "root": 1, "tm": []int{}, "nm": []int{}, "tmof": []int{}, "same": 1,
+					"panic": 0, "hang": 0, "ofpanic": 0, "root": 1, "tm": []int{}, "nm": []int{}, "tmof": []int{}, "same": 1, "dyn": []int{},
 					"T": []int{}, "names": []int{}, "customs": []int{}}
 			} else {
 				ev["crash"] = 0
